@@ -21,6 +21,18 @@ EXTENDS Ecdsa, TLC, FiniteSets
 
 VARIABLES mKind, mD, mE
 
+Bug == IF "VERIF_BUG" \in DOMAIN IOEnv THEN IOEnv.VERIF_BUG ELSE "none"      \* a deliberately wrong design, selected by the orchestrator for non-vacuity runs
+(* non-vacuity: verification that compares x(R) with r without reducing it modulo n; signing that keeps a high s; recovery that *)
+(* ignores bit 1 of the id                                                                                                      *)
+VerifyNoReduce(Mul(_, _), q, e, r, s) ==
+  /\ r # 0 /\ s # 0 /\ r < N /\ s < N
+  /\ LET w == SInv(s)  rr == PAdd(Mul(SMul(e, w), GenPt), Mul(SMul(r, w), q)) IN ~IsInf(rr) /\ rr[1] = r
+VerifyUT(Mul(_, _), q, e, r, s) == IF Bug = "verify_no_mod_n" THEN VerifyNoReduce(Mul, q, e, r, s) ELSE VerifyPredM(Mul, q, e, r, s)
+SignUT(Mul(_, _), d, e, k) ==
+  LET sg == SignWithNonceM(Mul, d, e, k) IN
+  IF Bug = "sign_high_s" /\ sg[1] = "sig" THEN <<"sig", sg[2], (N - sg[3]) % N, sg[4]>> ELSE sg
+RecoverUT(Mul(_, _), e, r, s, v) == IF Bug = "recover_ignores_bit1" THEN RecoverM(Mul, e, r, s, v % 2) ELSE RecoverM(Mul, e, r, s, v)
+
 ZN   == 0..(N - 1)
 FP   == 0..(P - 1)
 Aff  == TLCEval({<<x, y>> \in FP \X FP : (y * y) % P = (x * x * x + B) % P})
@@ -44,13 +56,13 @@ VerifyInv == Leaf /\ mKind = "verify" =>
   \A r \in ZN, s \in ZN :
     LET byDef == /\ r # 0 /\ s # 0
                  /\ \E k \in 1..(N - 1) : GT[k][1] % N = r /\ (s * k) % N = (mE + r * mD) % N
-    IN  /\ VerifyPredM(TMul, q, mE, r, s) <=> byDef
+    IN  /\ VerifyUT(TMul, q, mE, r, s) <=> byDef
         /\ VerifyAltM(TMul, mD, mE, r, s) <=> byDef
 
 SignInv == Leaf /\ mKind = "sign" =>
   LET q == GT[mD] IN
   \A k \in 1..(N - 1) :
-    LET sg == SignWithNonceM(TMul, mD, mE, k)
+    LET sg == SignUT(TMul, mD, mE, k)
         r0 == GT[k][1] % N
         s0 == (SInv(k) * ((mE + r0 * mD) % N)) % N
     IN  IF r0 = 0 \/ s0 = 0 THEN sg = <<"retry">>
@@ -63,7 +75,7 @@ SignInv == Leaf /\ mKind = "sign" =>
 RecoverInv == Leaf /\ mKind = "recover" =>
   LET r == mD IN
   \A s \in ZN, v \in 0..7 :
-    LET rc == RecoverM(TMul, mE, r, s, v)
+    LET rc == RecoverUT(TMul, mE, r, s, v)
         x  == r + N * ((v \div 2) % 2)
         cands == {a \in Aff : a[1] = x /\ a[2] % 2 = v % 2}
     IN  IF r = 0 \/ s = 0 \/ v >= 4 \/ x >= P \/ cands = {} THEN rc = <<"err">>
